@@ -22,17 +22,20 @@ Line(i) == TraceLog[i]
 
 TReset == /\ IsEvent("reset")
           /\ now' = 0 /\ pending' = 0 /\ timerAt' = 0 /\ nq' = <<>> /\ nsq' = <<>>
-          /\ hookStore' = Ev.s /\ agentStore' = Ev.s /\ changes' = <<>> /\ uncovered' = {} /\ runs' = <<>> /\ nreload' = 0
+          /\ hookStore' = Ev.s /\ agentStore' = Ev.s /\ changes' = <<>> /\ uncovered' = {} /\ runs' = <<>> /\ nreload' = 0 /\ psend' = "" /\ sh' = <<Ev.s>>
 
 TChange == /\ IsEvent("change") /\ Ev.s = agentStore
-           /\ changes' = Append(changes, [t |-> now, store |-> agentStore])
+           /\ changes' = Append(changes, [t |-> now, store |-> agentStore, e |-> Len(sh)])
            /\ uncovered' = uncovered \cup {Len(changes) + 1}
            /\ nq' = Append(nq, Len(changes) + 1)
-           /\ UNCHANGED <<now, pending, timerAt, nsq, hookStore, agentStore, runs, nreload>>
+           /\ UNCHANGED <<now, pending, timerAt, nsq, hookStore, agentStore, runs, nreload, psend, sh>>
 
-TReload == /\ IsEvent("reload") /\ nsq = <<>>
-           /\ agentStore' = Ev.s /\ nsq' = <<Ev.s>>
-           /\ UNCHANGED <<now, pending, timerAt, nq, hookStore, changes, uncovered, runs, nreload>>
+\* "reload s": the agent is about to switch to s; its blocking send of s to the loop completes later (TSend, not logged)
+TReload == /\ IsEvent("reload") /\ psend = ""
+           /\ agentStore' = Ev.s /\ psend' = Ev.s /\ sh' = Append(sh, Ev.s)
+           /\ UNCHANGED <<now, pending, timerAt, nq, nsq, hookStore, changes, uncovered, runs, nreload>>
+TSend == /\ psend # "" /\ nsq = <<>> /\ nsq' = <<psend>> /\ psend' = ""
+         /\ UNCHANGED <<now, pending, timerAt, nq, hookStore, agentStore, changes, uncovered, runs, nreload, sh, l>>
 
 \* a round = "hrun" line, optionally preceded by the drained "hnewstore" line
 RoundLines(first) ==
@@ -54,7 +57,7 @@ TNotify ==
             /\ uncovered' = {} /\ timerAt' = 1
        ELSE UNCHANGED <<runs, uncovered, hookStore, nsq, timerAt>> /\ l' = l + 1
     /\ pending' = pending + 1
-    /\ UNCHANGED <<now, agentStore, changes, nreload>>
+    /\ UNCHANGED <<now, agentStore, changes, nreload, psend, sh>>
 
 TTimer ==
     /\ l <= Len(TraceLog) /\ Ev.ev = "htimer" /\ Ev.p = pending /\ timerAt # 0
@@ -64,17 +67,17 @@ TTimer ==
             /\ uncovered' = {}
        ELSE UNCHANGED <<runs, uncovered, hookStore, nsq>> /\ l' = l + 1
     /\ pending' = 0 /\ timerAt' = 0
-    /\ UNCHANGED <<now, nq, agentStore, changes, nreload>>
+    /\ UNCHANGED <<now, nq, agentStore, changes, nreload, psend, sh>>
 
 TNewStore == /\ IsEvent("hnewstore") /\ nsq # <<>> /\ Ev.s = Head(nsq)
              /\ hookStore' = Head(nsq) /\ nsq' = <<>>
-             /\ UNCHANGED <<now, pending, timerAt, nq, agentStore, changes, uncovered, runs, nreload>>
+             /\ UNCHANGED <<now, pending, timerAt, nq, agentStore, changes, uncovered, runs, nreload, psend, sh>>
 
 \* quiet for several intervals: everything has been delivered and every change has had its round
-TEnd == /\ IsEvent("end") /\ nq = <<>> /\ nsq = <<>> /\ uncovered = {} /\ timerAt = 0
+TEnd == /\ IsEvent("end") /\ nq = <<>> /\ nsq = <<>> /\ psend = "" /\ uncovered = {} /\ timerAt = 0
         /\ UNCHANGED vars
 
-TraceNext == TReset \/ TChange \/ TReload \/ TNotify \/ TTimer \/ TNewStore \/ TEnd
+TraceNext == TReset \/ TChange \/ TReload \/ TSend \/ TNotify \/ TTimer \/ TNewStore \/ TEnd
 TraceInit == Init /\ l = 1
 TraceSpec == TraceInit /\ [][TraceNext]_tvars
 
